@@ -3,6 +3,7 @@ import Np.Proofs.Det
 import Np.Model.Maps
 import Np.Proofs.DetPoly
 import Np.Proofs.Reduce
+import Np.Proofs.ReduceFns
 /-! C10 — reductions and linear algebra equal finite sums and products of elements: property theorems -/
 namespace Np.Props.C10
 open MvPolynomial
@@ -104,5 +105,84 @@ theorem prod_is_product (rc rn : Bool) (a : Arr R) (ha : a.WF) (outShape : List 
       ∀ i : Fin (size r.shape), r.elem i = (groups.map fun g => gatheredElem a g i.val).prod :=
   prodOp_elem rc rn a ha outShape groups
 end reduceexec
+
+/-! ### numpy's index arithmetic for the reductions, inside the model (`Np/Model/ReduceFns.lean`; the run compares
+every table with the weights the numpy function itself acts by). A shape with a valid axis is written `a ++ n :: b`
+with `axis = a.length`; `InR idx s` = the multi-index lies inside the shape. -/
+section tables
+open Np.Shape Np.ReduceFns
+variable (a b : List Nat) (n : Nat)
+
+/-- `numpy.sum(x, axis, keepdims)`: the table has one row per output element, and the row of output multi-index
+`x ++ y` (with a `0` in between under keepdims) lists exactly the inputs `x ++ t :: y`, `t < n`, each once, weight 1 -/
+theorem sum_axis_table (k : Bool) : ∃ T, sumAxisW (a ++ n :: b) a.length k = some (sumOut a b k, T) ∧
+    T.length = size (sumOut a b k) ∧
+    (∀ row ∈ T, (row.map Prod.fst).Nodup ∧ ∀ iw ∈ row, iw.1 < size (a ++ n :: b) ∧ iw.2 = 1) ∧
+    ∀ x y, InR x a → InR y b → T.getD (ravel (sumOut a b k) (sumIdx k x y)) [] =
+      (List.range n).map fun t => (ravel (a ++ n :: b) (x ++ t :: y), 1) := sumAxisW_spec a b n k
+
+/-- … and through the executable `linearOp`: the element at that output position of a well-formed polynomial array
+*is* the finite sum of the operand's elements along the axis -/
+theorem sum_axis_is_the_sum {R : Type} [CommRing R] [BEq R] [LawfulBEq R] (rc rn : Bool) (arr : Arr R) (ha : arr.WF)
+    (hs : arr.shape = a ++ n :: b) (k : Bool) :
+    ∃ T, sumAxisW arr.shape a.length k = some (sumOut a b k, T) ∧
+      ∀ x y, InR x a → InR y b → ∀ i : Fin (size (sumOut a b k)), i.val = ravel (sumOut a b k) (sumIdx k x y) →
+        (linearOp rc rn arr (sumOut a b k) (castW T)).elem i =
+          ((List.range n).map fun t => elemD arr (ravel arr.shape (x ++ t :: y))).sum :=
+  linearOp_sumAxisW a b n rc rn arr ha hs k
+
+/-- an axis tuple holding one axis is that axis -/
+theorem sum_axes_single (k : Bool) : sumAxesW (a ++ n :: b) [a.length] k = sumAxisW (a ++ n :: b) a.length k :=
+  sumAxesW_single a b n k
+
+/-- `numpy.sum` over an axis tuple (distinct axes in range): an input multi-index contributes to exactly the output
+multi-index obtained by projecting the summed axes away -/
+theorem sum_axes_table (shape axes : List Nat) (k : Bool) (h1 : ∀ ax ∈ axes, ax < shape.length) (h2 : axes.Nodup) :
+    ∃ T, sumAxesW shape axes k = some (if k then keepShape axes shape 0 else dropShape axes shape 0, T) ∧
+    T.length = size (keepShape axes shape 0) ∧ T.length = size (dropShape axes shape 0) ∧
+    (∀ row ∈ T, (row.map Prod.fst).Pairwise (· < ·) ∧ ∀ iw ∈ row, iw.1 < size shape ∧ iw.2 = 1) ∧
+    ∀ jdx, InR jdx (keepShape axes shape 0) → ∀ idx, InR idx shape →
+      ((ravel shape idx, 1) ∈ T.getD (ravel (keepShape axes shape 0) jdx) [] ↔ projIdx axes idx 0 = jdx) :=
+  sumAxesW_spec shape axes k h1 h2
+
+/-- `numpy.cumsum(x, axis)`: the row of `x ++ u :: y` lists the inputs `x ++ t :: y` for `t ≤ u` -/
+theorem cumsum_table : ∃ T, cumsumAxisW (a ++ n :: b) a.length = some (a ++ n :: b, T) ∧
+    T.length = size (a ++ n :: b) ∧
+    (∀ row ∈ T, (row.map Prod.fst).Nodup ∧ ∀ iw ∈ row, iw.1 < size (a ++ n :: b) ∧ iw.2 = 1) ∧
+    ∀ x y u, InR x a → InR y b → u < n → T.getD (ravel (a ++ n :: b) (x ++ u :: y)) [] =
+      (List.range (u + 1)).map fun t => (ravel (a ++ n :: b) (x ++ t :: y), 1) := cumsumAxisW_spec a b n
+
+/-- `numpy.diff(x, axis=axis)`: `out[x, u, y] = in[x, u+1, y] − in[x, u, y]`, the axis shrinks by one -/
+theorem diff_table : ∃ T, diffW (a ++ n :: b) a.length = some (a ++ (n - 1) :: b, T) ∧
+    T.length = size (a ++ (n - 1) :: b) ∧
+    (∀ row ∈ T, (row.map Prod.fst).Nodup ∧ ∀ iw ∈ row, iw.1 < size (a ++ n :: b) ∧ (iw.2 = 1 ∨ iw.2 = -1)) ∧
+    ∀ x y u, InR x a → InR y b → u < n - 1 → T.getD (ravel (a ++ (n - 1) :: b) (x ++ u :: y)) [] =
+      [(ravel (a ++ n :: b) (x ++ (u + 1) :: y), 1), (ravel (a ++ n :: b) (x ++ u :: y), -1)] := diffW_spec a b n
+
+/-- `numpy.diff(x, n=2, axis)` is `diff` applied twice: weights `1, −2, 1` -/
+theorem diff_twice_table : ∃ T, diffNW (a ++ n :: b) 2 a.length = some (a ++ (n - 2) :: b, T) ∧
+    ∀ x y u, InR x a → InR y b → u + 2 < n → T.getD (ravel (a ++ (n - 2) :: b) (x ++ u :: y)) [] =
+      [(ravel (a ++ n :: b) (x ++ (u + 2) :: y), 1), (ravel (a ++ n :: b) (x ++ (u + 1) :: y), -2),
+        (ravel (a ++ n :: b) (x ++ u :: y), 1)] := diffNW_two a b n
+
+/-- `numpy.ediff1d(x)`: differences of consecutive elements of the flattened array -/
+theorem ediff1d_table (shape : List Nat) : ∃ T, ediff1dW shape = some ([size shape - 1], T) ∧
+    T.length = size [size shape - 1] ∧
+    (∀ row ∈ T, (row.map Prod.fst).Nodup ∧ ∀ iw ∈ row, iw.1 < size shape ∧ (iw.2 = 1 ∨ iw.2 = -1)) ∧
+    ∀ j, j < size shape - 1 → T.getD j [] = [(j + 1, 1), (j, -1)] ∧
+      T.getD j [] = [(ravel shape (unravel shape (j + 1)), 1), (ravel shape (unravel shape j), -1)] ∧
+      InR (unravel shape (j + 1)) shape ∧ InR (unravel shape j) shape := ediff1dW_spec shape
+
+/-- `numpy.prod(x, axis, keepdims)`: factor `t` at output multi-index `x ++ y` is the input at `x ++ t :: y` (1-based,
+the layout `prodOp` consumes) -/
+theorem prod_groups_table (k : Bool) : ∃ G, prodAxisGroups (a ++ n :: b) a.length k = some (sumOut a b k, G) ∧
+    G.length = n ∧ ∀ x y t, InR x a → InR y b → t < n →
+      (G.getD t []).getD (ravel (sumOut a b k) (sumIdx k x y)) 0 = ravel (a ++ n :: b) (x ++ t :: y) + 1 :=
+  prodAxisGroups_spec a b n k
+
+/-- non-vacuity: numpy.diff(arange(6).reshape(2,3), n=2, axis=1) and the mean over both axes of a 2x3 array -/
+example : diffNW [2, 3] 2 1 = some ([2, 1], [[(2, 1), (1, -2), (0, 1)], [(5, 1), (4, -2), (3, 1)]]) := by decide
+example : (sumAxesW [2, 3] [0, 1] true).map (·.1) = some [1, 1] := by decide
+end tables
 
 end Np.Props.C10
